@@ -8,6 +8,7 @@ from reactivex import operators as ops
 
 from vlib.core import FAIL, OK, SKIP, Check
 from vlib.pipes import OPS, op_names, pipelines
+from vlib.values import Tagged
 from vlib.relsub import INF, Diverged, DProbe, OBuilder, TLab, all_inners, release_deadline
 
 PROPERTY_ID = "C02"
@@ -17,7 +18,12 @@ RULE = (
     "self-contained multicast forms, root = one source or merge/concat/zip/combine_latest/amb/catch/"
     "on_error_resume_next/fork_join/with_latest_from/defer over 1-3 sources) over conforming cold/hot/synchronous "
     "logged virtual-time sources; root sources without a terminal get one appended in most cases so the pipeline "
-    "terminates; the probe never raises and follows a generated policy for Observable-valued elements (subscribe "
+    "terminates; the probe never raises in on_next; in 2 of 5 cases its *terminal* handler misbehaves - 'handler': its "
+    "on_error/on_completed raises after recording, 'default': no on_error is given so the library's default handler "
+    "re-raises the sequence's error - the exception unwinds into the emitter / scheduler loop, is tolerated (exactly "
+    "that exception, once) and the run keeps draining; the release oracle is unchanged (runs in which the exception "
+    "unwinds through a subscribe() call in progress are not judged: the aborted subscribe functions never returned "
+    "their disposables); the probe follows a generated policy for Observable-valued elements (subscribe "
     "now / late by d ticks / never; optionally unsubscribe u ticks after subscribing), applied recursively. "
     "Oracle (trace invariant over the source subscription logs): let T be the tick of the top probe's terminal. For "
     "every logged source subscription [a, b] opened by the pipeline or by an inner probe (root sources, sources in "
@@ -30,6 +36,7 @@ RULE = (
     "opened on a source that had not delivered its own terminal by T. Distinct = distinct case JSON."
 )
 ASSUMPTIONS = [
+    "a terminal-handler exception that unwinds through a subscribe() in progress (terminal delivered synchronously inside subscribe) is not judged: no handle to the partially built subscription ever existed; observed leaks there (e.g. with_latest_from/fork_join/flat_map with a synchronously terminating source) are reported, not failed",
     "close times are compared at tick granularity ('by the end of that virtual instant')",
     "a case in which an exception escapes the scheduler loop (possible only through non-catching harness emitters) is discarded and counted",
     "cases with >=90 actions at one virtual instant or exceeding the work budget are discarded as inconclusive and counted",
@@ -61,18 +68,53 @@ def run_pipeline(case, make=None):
         o = OBuilder(lab).build(case["pipe"])
     else:
         o = make(lab)
-    p = DProbe(lab, "p", inner=case["inner"])
+    mode = case.get("raise")  # None | "handler" (probe raises in its terminal handler) | "default" (no on_error given)
+    p = DProbe(lab, "p", inner=case["inner"], raise_terminal=mode == "handler", no_on_error=mode == "default")
     lab.probes.append(p)
+
+    lab.through_subscribe = False
+
+    def tolerated(e):
+        """The subscriber's own terminal handler raised: the exception legitimately unwinds into the emitter."""
+        ok = False
+        if mode == "handler":
+            ok = isinstance(e, Tagged) and e.tag == "probe:p:terminal"
+        elif mode == "default" and p.terminal() is None and not isinstance(e, RecursionError):
+            p.note_default_error(e)  # the default on_error re-raised the sequence's error: that was the terminal
+            ok = True
+        if ok and _through_subscribe(e):
+            lab.through_subscribe = True
+        return ok
+
     try:
         p.subscribe(o)
     except (RecursionError, Diverged):
         lab.inconclusive = "recursion"
-    if lab.inconclusive:
+    except Exception as e:  # noqa
+        if not tolerated(e):
+            lab.escaped = e
+    if lab.inconclusive or lab.escaped is not None:
         return lab, p
-    lab.run()
+    for _ in range(8):
+        lab.run()
+        e = lab.escaped
+        if e is None or lab.inconclusive or not tolerated(e):
+            break
+        lab.escaped = None  # keep draining: the rest of the run decides whether everything was released
     if lab.inconclusive is None and recursion_seen(lab):
         lab.inconclusive = "recursion"
     return lab, p
+
+
+def _through_subscribe(e):
+    """Did the exception unwind through a subscribe() call in progress?  Then the subscribe functions it aborted never
+    returned their disposables: nobody ever held a handle to what they had already subscribed (not judged)."""
+    tb = e.__traceback__
+    while tb is not None:
+        if tb.tb_frame.f_code.co_name in ("subscribe", "_subscribe_core", "_subscribe_with_snap"):
+            return True
+        tb = tb.tb_next
+    return False
 
 
 def recursion_seen(lab):
@@ -105,6 +147,11 @@ def judge(case, pc, lab, p):
         return OK(False, cls)
     T = term[0]
     cls.append("terminal:" + term[1])
+    if case.get("raise"):
+        if getattr(lab, "through_subscribe", False):
+            cls.append("raise:" + case["raise"] + ":through-subscribe-not-judged")
+            return OK(False, cls)
+        cls.append("raise:" + case["raise"] + ":" + term[1])
     if p.sub_tick == T and not lab.ticks:
         cls.append("terminal-inside-subscribe")
     early = False
@@ -158,6 +205,9 @@ def judge(case, pc, lab, p):
 # ---------------------------------------------------------------------------------------
 
 
+s_raise = st.sampled_from([None, None, None, "handler", "default"])
+
+
 def inner_policies():
     return st.fixed_dictionaries(
         {
@@ -185,7 +235,7 @@ def cases(max_ops, **kw):
     def _c(draw):
         pc = draw(pipelines(max_ops=max_ops, conforming=True, **kw))
         pc = _terminate_roots(draw, pc)
-        return {"pipe": pc, "inner": draw(inner_policies())}
+        return {"pipe": pc, "inner": draw(inner_policies()), "raise": draw(s_raise)}
 
     return _c()
 
@@ -229,7 +279,7 @@ def cases_inner(max_ops):
         pc["ops"] = _fit(pc["ops"] + [[g, draw(OPS[g].args)]] + post)
         pc = _terminate_roots(draw, pc)
         pol = draw(inner_policies())
-        return {"pipe": pc, "inner": pol}
+        return {"pipe": pc, "inner": pol, "raise": draw(s_raise)}
 
     return _c()
 
@@ -315,8 +365,8 @@ def cases_gbu():
     pol = st.fixed_dictionaries(
         {"mode": st.sampled_from(["now", "late", "never"]), "d": st.integers(0, 2), "unsub": st.one_of(st.none(), st.integers(0, 4), st.integers(0, 4))}
     )
-    return st.fixed_dictionaries({"src": src, "g": g, "end": enders, "inner": pol}).map(
-        lambda c: {"pipe": {"root": {"f": "single", "srcs": [c["src"]]}, "ops": [["group_by_until_self", c["g"]]] + c["end"]}, "inner": c["inner"]}
+    return st.fixed_dictionaries({"src": src, "g": g, "end": enders, "inner": pol, "raise": s_raise}).map(
+        lambda c: {"pipe": {"root": {"f": "single", "srcs": [c["src"]]}, "ops": [["group_by_until_self", c["g"]]] + c["end"]}, "inner": c["inner"], "raise": c["raise"]}
     )
 
 
